@@ -74,6 +74,9 @@ class RecvWorld:
     def on_send(self, sock, parts, flags):
         assert sock.type == simzmq.PUSH
         if getattr(sock, 'full', False):
+            if not hasattr(self, 'again'):
+                self.again = []
+            self.again.append((len(self.items) - 1, self.push_index(sock)))      # an attempt that found the pipe full (for the oracles)
             raise simzmq.Again()
         env = json.loads(parts[0].decode())
         i = self.push_index(sock)
@@ -434,7 +437,7 @@ def run_receiver_case(rng, budget=60, adversarial=False, edge=False):
         w.close_last()
         drained = (not any(w.streams) and not any(s.inbox for s in w.subs) and not any('raised' in c for c in calls)
                    and all('ret' in c for c in calls))          # ... and the consumer is between calls
-    return dict(cfg=cfg, items=w.items, calls=calls, prov=w.prov, groups=groups, drained=drained)
+    return dict(cfg=cfg, items=w.items, calls=calls, prov=w.prov, groups=groups, drained=drained, again=getattr(w, 'again', []))
 
 
 def recv_case_lit(case):
@@ -494,6 +497,23 @@ def recv_oracle(run, case, props, wf):
             else:
                 continue
             break
+    if 'C06' in props and not cfg['balance']:
+        # the periodic re-request is what lets a restarted publisher learn of this consumer again (and what recovers a lost frame):
+        # whenever the consumer sends requests, every source it is still waiting for - nothing or only part of a set received -
+        # is asked, a half-received set included
+        for k in range(1, len(case['items'])):
+            it, pv = case['items'][k], case['items'][k - 1]
+            asked = {o[1] for o in it[1] if o[0] == 'u'}
+            if not asked or it[2] is None or pv[2] is None:
+                continue
+            asked |= {i for k2, i in case.get('again', []) if k2 == k}       # tried, the request pipe was full
+            waiting = [i for i, sc in enumerate(cfg['srcs']) if sc['eph'] < 2 and pv[2][1][i][3] and it[2][1][i][3]]
+            missed = [i for i in waiting if i not in asked]
+            if missed:
+                run.violation('heal:waiting-source-not-asked src=%s set=%s' % (missed, ['partial' if pv[2][1][i][2] and any(x[1] is not None for x in pv[2][1][i][2]) else 'empty' for i in missed]),
+                              'item %d: the consumer sent requests to sources %s but not to %s, which it is still waiting for (held: %s)'
+                              % (k, sorted(asked), missed, [pv[2][1][i][2] for i in missed]), summary)
+                break
     if props & {'C01', 'C02'}:
         # what one source's held set contains at any moment was published under one id: a set that mixes ids is handed over as it
         # is once it is complete (it may sit there for a while first)
@@ -1214,7 +1234,7 @@ def replay_receiver_case(cfg, script):
         except ScriptEnd:
             pass
         w.close_last()
-    return dict(cfg=cfg, items=w.items, calls=calls, prov=w.prov)
+    return dict(cfg=cfg, items=w.items, calls=calls, prov=w.prov, again=getattr(w, 'again', []))
 
 
 # hand-written minimal histories (always run first)
